@@ -104,6 +104,7 @@ def showShard (sh : Shard) : String :=
 def stepLine (st : St) (line : String) : St × String :=
   let toks := (line.trimAscii.toString.splitOn " ").filter (· ≠ "")
   match toks with
+  | "skip" :: _ => (st, "ok")
   | "curate" :: rest =>
     match kv rest "complete", (kv rest "all") >>= parseNats, (kv rest "succ") >>= parseNats with
     | some c, some all, some succ => (st, showFailed (curate all succ (c == "1")))
@@ -142,7 +143,9 @@ def stepLine (st : St) (line : String) : St × String :=
     | some req, some (some ans) =>
       if ans.length ≠ st.col.length then (st, "bad-ans") else
       let r := updatePoints (withAns st.col ans) req
-      ({ st with col := restoreUp st.col r.col }, showFailed r.failed)
+      -- `inconclusive=1`: the harness does not judge the answer of this run (starved process); the
+      -- state still follows the shards that did run their handler
+      ({ st with col := restoreUp st.col r.col }, if (kv rest "inconclusive").isSome then "inconclusive" else showFailed r.failed)
     | _, _ => (st, "bad-op")
   | "delete" :: rest =>
     match (kv rest "ids") >>= parseNats, (kv rest "ans").map parseAns with
@@ -152,7 +155,7 @@ def stepLine (st : St) (line : String) : St × String :=
     | some ids, some (some ans) =>
       if ans.length ≠ st.col.length then (st, "bad-ans") else
       let r := deletePoints (withAns st.col ans) ids
-      ({ st with col := restoreUp st.col r.col }, showFailed r.failed)
+      ({ st with col := restoreUp st.col r.col }, if (kv rest "inconclusive").isSome then "inconclusive" else showFailed r.failed)
     | _, _ => (st, "bad-op")
   | "route" :: rest =>
     match kv rest "cache", ((kv rest "evs").map fun s => (splitNE s ",").mapM parseEv) with
@@ -162,6 +165,7 @@ def stepLine (st : St) (line : String) : St × String :=
     | _, _ => (st, "bad-op")
   | ["state"] => (st, "shards " ++ (if st.col.isEmpty then "-" else "|".intercalate (st.col.map showShard)))
   | "search" :: rest =>
+    if (kv rest "inconclusive").isSome then (st, "inconclusive") else
     match (kv rest "limit") >>= (·.toNat?), (kv rest "offset") >>= (·.toNat?), kv rest "mode", (kv rest "answers") >>= parseAnswers with
     | some limit, some offset, some mode, some answers =>
       let opts := (splitNE ((kv rest "opts").getD "-") ",").map (· == "1")
